@@ -79,7 +79,7 @@ structure BlockTotal (c : Cutter) (r : Cutter × Option Err) : Prop where
   noPanic : r.2 ≠ some .panic
   noFuel : r.2 ≠ some .fuel
   cont : r.2 = none → r.1.OK ∧ c.bits.pos ≤ r.1.bits.pos
-  prog : r.2 = Option.some .someProgress → r.1.bits.WF
+  prog : r.2 = Option.some .someProgress → r.1.bits.WF ∧ c.bits.pos ≤ r.1.bits.pos
 
 theorem doStored_total (c : Cutter) (hc : c.OK) : BlockTotal c c.doStored := by
   obtain ⟨s1, s2, _⟩ := doStored_spec c
@@ -114,7 +114,10 @@ theorem doStored_total (c : Cutter) (hc : c.OK) : BlockTotal c c.doStored := by
       simp only [Bitstream.pos]
       omega
   · intro _
-    exact ⟨by simp, by simp; omega⟩
+    refine ⟨⟨by simp, by simp; omega⟩, ?_⟩
+    rw [← hup]
+    simp only [Bitstream.pos]
+    omega
 
 /-! ### the tables of RFC 1951 §3.2.5 as `doHuffman` uses them -/
 
